@@ -34,6 +34,15 @@ class PathFacts:
         self.unexplained = set()     # ... for which some alternative had no binding of the flag
         self._run()
 
+    def _variant_index(self, adt, variant):
+        a = (self.body.facts.adts or {}).get(adt) if self.body.facts is not None else None
+        if not a:
+            return {"None": 0, "Some": 1, "Ok": 0, "Err": 1, "Continue": 0, "Break": 1}.get(variant) if adt.split("<")[0].rsplit("::", 1)[-1] in ("Option", "Result", "ControlFlow") else None
+        for v in a["variants"]:
+            if v["name"] == variant:
+                return v["discr"]
+        return None
+
     # -------------------------------------------------------------- transfer
     def _bind(self, alt, local, val):
         """alt with the binding of `local` replaced by val (None = unknown)"""
@@ -55,13 +64,32 @@ class PathFacts:
             if l is not None and any(f[0] == "B" and f[1] == l for f in alt):
                 return self._bind(alt, l, None)
             return alt
-        if st.kind != "assign" or st.place is None or st.place.proj:
+        if st.kind != "assign" or st.place is None:
             return alt
         l = st.place.local
-        if not _is_bool(self.body, l):
+        if st.place.proj:
+            # a write into part of the value: whatever was known about its variant is gone
+            if any(f[0] == "B" and f[1] == l and f[2] == "vconst" for f in alt) and any(p["k"] != "deref" for p in st.place.proj):
+                return self._bind(alt, l, None)
             return alt
         rv = st.rv
         ops = rv.operands()
+        if not _is_bool(self.body, l):
+            # enum-valued "flags": `let view = if deleted { None } else { Some(x) }; match view { .. }` - the variant a local was
+            # given by an aggregate is remembered and decides the switch on its discriminant
+            if rv.kind == "agg" and rv.j.get("variant") is not None and rv.j.get("adt"):
+                idx = self._variant_index(rv.j["adt"], rv.j["variant"])
+                return self._bind(alt, l, ("vconst", idx, 0, False) if idx is not None else None)
+            if rv.kind == "discr":
+                pl = rv.place()
+                b = self._binding(alt, pl.local) if pl is not None and not pl.proj else None
+                return self._bind(alt, l, b if b is not None and b[0] == "vconst" else None)
+            if rv.kind == "use" and ops and ops[0].local() is not None:
+                b = self._binding(alt, ops[0].local())
+                return self._bind(alt, l, b if b is not None and b[0] == "vconst" else None)
+            if any(f[0] == "B" and f[1] == l for f in alt):
+                return self._bind(alt, l, None)
+            return alt
         if rv.kind == "use" and ops:
             o = ops[0]
             if o.is_const() and "bool" in o.j:
@@ -90,6 +118,8 @@ class PathFacts:
             t = blk.term
             if t.kind in ("call", "tailcall") and t.dest is not None and not t.dest.proj and _is_bool(self.body, t.dest.local):
                 a = self._bind(a, t.dest.local, ("def", b, -1, False))
+            elif t.kind in ("call", "tailcall") and t.dest is not None and any(f[0] == "B" and f[1] == t.dest.local for f in a):
+                a = self._bind(a, t.dest.local, None)
             out.add(a)
         return frozenset(out)
 
@@ -109,6 +139,11 @@ class PathFacts:
         out = set()
         for alt in alts:
             a = set(alt)
+            if not is_bool and d is not None:
+                b = self._binding(alt, d)
+                if b is not None and b[0] == "vconst":
+                    if (v is not None and v != b[1]) or (v is None and b[1] in targets):
+                        continue     # the local holds another variant on this alternative
             if is_bool and d is not None and truth is not None:
                 self.flag_switches.add(s)
                 b = self._binding(alt, d)
